@@ -126,6 +126,7 @@ namespace Givaro {
         // Lf is the Container of factors
         uint64_t n = (uint64_t)p;
         if (Integer(n) != p) std::cerr << "*** Erathostene with " << p << " too large, using " << n << " instead ***" << std::endl;
+        if (n == 0) return;  // 0 has no prime factorisation (the loop stripping the factors 2 would never end)
 
 
         if (! (n & 0x1)) {
